@@ -393,6 +393,9 @@ func ruleTraceCount(c *Ctx, r *Report, rule string) {
 
 func checkC19(c *Ctx, r *Report) {
 	ruleFlagNonInterference(c, r, "flag-noninterference")
+	// "never make a call panic … for every program including failing ones": the listing is printed only for a program
+	// that was built completely
+	ruleDisasmGated(c, r, "listing-gated")
 	r.rule("observer-purity", 5, "the observers and everything they call write nothing but their output stream: no store through parameters, captured variables, globals; no map update")
 	var roots []string
 	for o := range observers {
